@@ -121,7 +121,8 @@ func (s *JavaAPIListener) EnterAnnotation(ctx *parser.AnnotationContext) {
 		for _, valuePair := range allValuePair {
 			pair := valuePair.(*parser.ElementValuePairContext)
 			if pair.Identifier().GetText() == "method" {
-				addApiMethod(pair.ElementValue().GetText())
+				// method = RequestMethod.GET or method = {RequestMethod.GET}
+				addApiMethod(strings.Trim(pair.ElementValue().GetText(), "{}"))
 			}
 			if pair.Identifier().GetText() == "value" {
 				currentRestAPI.Uri = baseApiUrl + trimQuote(pair.ElementValue().GetText())
